@@ -328,6 +328,50 @@ def dec_conn(j):
                                            sid=r.get("sid"), script=None if not r.get("script") else ([(bytes.fromhex(d) if not d.startswith("!") else b"E" * int(d[1:]), dl) for d, dl in r["script"]["segs"]], r["script"]["end"])) for r in j["reqs"]])
 
 
+# ------------------------------------------------------------------ unit: the escape that keeps a request path inside one header line
+def run_encoding_unit(ctx):
+    """buffer_append_string_encoded(ENCODING_REL_URI) and http_response_redirect_to_directory() of the working tree against Resp.EncModel
+    (the object of the theorems enc_rel_uri_is_visible_ascii / dir_redirect_location_has_no_line_break), and against the clause itself:
+    no CR, LF or NUL in the value, and the value decodes back to the path"""
+    import urllib.parse
+    rng = ctx.rng
+    exe = vlib.cc_harness(ctx, "enc_h", link_srcs=vlib.COMMON_SRC, sanitize=(ctx.tier == "thorough"))
+    model = vlib.model_driver("C04")
+    cases = ["N %s" % vlib.hx(bytes([c])) for c in range(1, 256)] + ["N %s" % vlib.hx(bytes([a, b])) for a in (13, 10, 37, 47, 0x80, 65) for b in (13, 10, 32, 37, 58, 63, 35, 255)]
+    frag = [b"/", b"a", b"dir", b"\r\n", b"\r", b"\n", b"X-Injected: 1", b" ", b"%", b"%0d%0a", b"?", b"#", b"\x7f", b"\xc3\xa9", b"\x01", b":", b"//", b"..", b"\t", b"\\", b"\""]
+    for _ in range(20000 if ctx.tier == "thorough" else 3000):
+        path = b"".join(rng.choice(frag) for _ in range(rng.randrange(1, 8)))
+        if rng.random() < 0.5: cases.append("N %s" % vlib.hx(path))
+        else:
+            ab = rng.random() < 0.5
+            cases.append("L %d %s %s %s %s" % (ab, vlib.hx(rng.choice([b"http", b"https"])), vlib.hx(rng.choice([b"h.example", b"h.example:8080", b"[::1]:81"])), vlib.hx(b"/" + path),
+                                          vlib.hx(rng.choice([b"", b"", b"q=1", b"a=%0d%0a", b"x y"]))))
+    _, out_i, err = vlib.run_lines_sharded(exe, cases)
+    _, out_m, _ = vlib.run_lines_sharded(model, cases)
+    n = min(len(cases), len(out_i), len(out_m)); dis = 0; bad = 0
+    for i in range(n):
+        t = cases[i].split()
+        v = vlib.unhx(out_i[i]) if out_i[i] not in ("ERR", "?", "~") else None
+        why = None
+        if v is None: why = "no value (%s)" % out_i[i]
+        elif t[0] == "N":
+            src = vlib.unhx(t[1])
+            if any(c in v for c in b"\r\n\0"): why = "the encoded path contains CR, LF or NUL"
+            elif urllib.parse.unquote_to_bytes(v) != src: why = "the encoded path %r does not decode back to %r" % (v, src)
+        else:
+            if any(c in v for c in b"\r\n\0"): why = "the Location value contains CR, LF or NUL"
+        if why:
+            bad += 1
+            if bad <= 2: ctx.violate("enc:" + cases[i][:40], "C04 fails on the implementation: %s; input %s -> %r" % (why, cases[i][:200], v), dict(kind="enc-unit", case=cases[i], impl=out_i[i], model=out_m[i], why=why))
+        elif out_i[i] != out_m[i]:
+            dis += 1
+            if dis <= 1: ctx.violate("enc-correspondence", "buffer_append_string_encoded / http_response_redirect_to_directory no longer compute Resp.EncModel (e.g. %s: impl=%s model=%s)"
+                                     % (cases[i][:120], out_i[i][:120], out_m[i][:120]), dict(kind="enc-unit", correspondence="Resp.EncModel vs buffer.c/http-header-glue.c", case=cases[i], impl=out_i[i], model=out_m[i]), no_input=True)
+    ctx.cov["evaluations"] += n
+    ctx.cov["correspondence"]["rel-uri-encoding"] = dict(cases=n, disagreements=dis, clause_violations=bad)
+    return bool(bad or dis)
+
+
 def run(ctx):
     ok = ctx.prove()
     model = vlib.model_driver("C04")
@@ -399,6 +443,7 @@ def run(ctx):
                        "reads with pauses, 2 KiB receive buffer, request-after-response) x resources: static files of %d boundary sizes, CGI output without Content-Length in pieces, "
                        "with Content-Length, 100 KB-1 MiB streams, Status 204/205/304 with a body that must be dropped, percent-encoded CR/LF/NUL in query and path; every byte stream "
                        "is parsed by the strict RFC 9112 reader and every body compared with the resource" % len(sizes))
+    if run_encoding_unit(ctx): found = True
     if not ok and not found:
         ctx.proof_broken_violation()
 
@@ -406,6 +451,12 @@ def run(ctx):
 def replay(ctx, path):
     import shutil
     obj = json.load(open(path)); rp = obj["replay"]
+    if rp.get("kind") == "enc-unit":
+        exe = vlib.cc_harness(ctx, "enc_h", link_srcs=vlib.COMMON_SRC); model = vlib.model_driver("C04")
+        _, oi, _ = vlib.run_lines(exe, [rp["case"]]); _, om, _ = vlib.run_lines(model, [rp["case"]])
+        print("input:", rp["case"]); print("impl :", oi, [vlib.unhx(x) for x in oi if x not in ("ERR", "?", "~")]); print("model:", om)
+        shutil.rmtree(ctx.scratch, ignore_errors=True)
+        return 0 if oi == om and oi and not any(c in vlib.unhx(oi[0]) for c in b"\r\n\0") else 1
     if "conn" not in rp:
         print(rp); shutil.rmtree(ctx.scratch, ignore_errors=True); return 1
     c = dec_conn(rp["conn"])
